@@ -93,7 +93,7 @@ def gen_perm_twice(r, n):
     # ... and through a symlinked directory followed by `..` (the kernel follows the link first)
     # ... and a file directly in the working directory, with a namesake of another owner in $PATH (seed C18h: the path was
     # cleaned to the bare name before the start, so the namesake ran)
-    for path in ["./top.sh", "bin/../top.sh", "./lnk.sh"]:
+    for path in ["./top.sh", "bin/../top.sh", "./lnk.sh", "top.sh"]:   # the last one is a bare name: $PATH decides
         ops.append(f"ex.rel path={path} variant=cwdfile")
     ops.append("ex.rel path=current/../bin/probe.sh variant=bad")
     ops.append("ex.rel path=current/../bin/probe.sh variant=good")
